@@ -119,64 +119,84 @@ CORPUS = [
 ]
 
 
-def build_programs(ctx, n, maxdepth):
+def build_programs(ctx, n, maxdepth, nchunks=16):
     progs = list(CORPUS)
     for i in range(n):
         progs.append(gen_prog(ctx.rng, 1 + ctx.rng.below(maxdepth), False))
-    pr = CPrinter()
-    bodies = []
-    for i, p in enumerate(progs):
-        bodies.append("static void prog_%d(void) {\n%s}\n" % (i, pr.items(p, "\t")))
-    src = ['#include "oracle.h"', "static int TR[4096]; static int NT;", "static void T(int x) { if (NT < 4096) TR[NT++] = x; }"]
-    src.append("static int emap(int e) { return e == ERR_NO_MEMORY ? 1 : e == ERR_NO_PRECI ? 2 : e == ERR_NO_FILE ? 3 : e == ERR_NO_READ ? 4 : "
-               "e == ERR_NO_VALID ? 5 : e == ERR_CAUGHT ? 0 : e; }")
-    src += pr.funcs + bodies
-    src.append("typedef void (*pf)(void);")
-    src.append("static const pf PROGS[] = {%s};" % ", ".join("prog_%d" % i for i in range(len(progs))))
-    src.append("""
+    files = []
+    per = (len(progs) + nchunks - 1) // nchunks
+    for k in range(nchunks):
+        part = list(enumerate(progs))[k * per:(k + 1) * per]
+        pr = CPrinter()
+        pr.nf = k * 100000
+        bodies = ["static void prog_%d(void) {\n%s}\n" % (i, pr.items(p, "\t")) for i, p in part]
+        src = ['#include "oracle.h"', "extern void T(int x);"] + pr.funcs + bodies
+        src.append("typedef void (*pf)(void);")
+        src.append("const pf PROGS_%d[] = {%s 0};" % (k, "".join("prog_%d, " % i for i, _ in part)))
+        files.append("\n".join(src))
+    main = ['#include "oracle.h"', "static int TR[4096]; static int NT;", "void T(int x) { if (NT < 4096) TR[NT++] = x; }",
+            "typedef void (*pf)(void);"]
+    main += ["extern const pf PROGS_%d[];" % k for k in range(nchunks)]
+    main.append("static const pf *CH[] = {%s};" % ", ".join("PROGS_%d" % k for k in range(nchunks)))
+    main.append("static int emap(int e) { return e == ERR_NO_MEMORY ? 1 : e == ERR_NO_PRECI ? 2 : e == ERR_NO_FILE ? 3 : e == ERR_NO_READ ? 4 : "
+                "e == ERR_NO_VALID ? 5 : e == ERR_CAUGHT ? 0 : e; }")
+    main.append("""
 static void op_prog(int argc, char **argv) {
 	if (argc < 2) { fprintf(OUT, "bad-args\\n"); return; }
 	int i = parse_int(argv[1]);
 	ctx_t *ctx = core_get();
-	if (i < 0 || i >= (int)(sizeof(PROGS) / sizeof(PROGS[0]))) { fprintf(OUT, "bad-index\\n"); return; }
+	if (i < 0 || i >= %d) { fprintf(OUT, "bad-index\\n"); return; }
 	NT = 0; ctx->last = NULL; ctx->caught = 0; ctx->code = RLC_OK;
-	PROGS[i]();
+	CH[i / %d][i %% %d]();
 	if (NT == 0) fprintf(OUT, "-");
 	for (int k = 0; k < NT; k++) {
 		int x = TR[k];
 		if (k) fputc(',', OUT);
-		if (x >= 2000) fprintf(OUT, "e%d", emap(x - 2000)); else if (x >= 1000) fprintf(OUT, "c%d", x - 1000 == RLC_OK ? 0 : 1);
-		else fprintf(OUT, "a%d", x);
+		if (x >= 2000) fprintf(OUT, "e%%d", emap(x - 2000)); else if (x >= 1000) fprintf(OUT, "c%%d", x - 1000 == RLC_OK ? 0 : 1);
+		else fprintf(OUT, "a%%d", x);
 	}
-	fprintf(OUT, " code=%d chain=%d\\n", ctx->code == RLC_OK ? 0 : 1, ctx->last == NULL ? 0 : 1);
+	fprintf(OUT, " code=%%d chain=%%d\\n", ctx->code == RLC_OK ? 0 : 1, ctx->last == NULL ? 0 : 1);
 	ctx->last = NULL; ctx->caught = 0; ctx->code = RLC_OK;
 }
 const op_t ops_prog[] = { {"prog", op_prog}, {NULL, NULL} };
-""")
-    return progs, "\n".join(src)
+""" % (len(progs), per, per))
+    return progs, files, "\n".join(main)
 
 
 def streams(ctx, scale=1):
-    n = (400 if ctx.tier == "quick" else 6000) * scale
-    progs, csrc = build_programs(ctx, n, 5)
-    b = ctx.build("base")
-    d = os.path.join(b, "progs")
-    os.makedirs(d, exist_ok=True)
-    h = hashlib.sha256(csrc.encode()).hexdigest()[:12]
-    cfile = os.path.join(d, "progs_%s.c" % h)
-    open(cfile, "w").write(csrc)
+    import subprocess, shutil
     import relicbuild as rb
-    exe = os.path.join(d, "oracle_%s" % h)
+    n = (1500 if ctx.tier == "quick" else 20000) * scale
+    progs, files, mainsrc = build_programs(ctx, n, 5)
+    b = ctx.build("base")
+    h = hashlib.sha256(("".join(files) + mainsrc).encode()).hexdigest()[:12]
+    d = os.path.join(b, "progs_" + h)
+    shutil.rmtree(d, ignore_errors=True)
+    os.makedirs(d)
     V = os.path.dirname(os.path.dirname(os.path.dirname(os.path.abspath(__file__))))
-    err = rb.cc_harness(b, "base", [os.path.join(V, "harness", "oracle.c"), os.path.join(V, "harness", "ops_bn.c"), cfile], exe,
-                        defs=["ORACLE_PROGS"])
-    if err:
+    inc = ["-I", os.path.join(b, "include"), "-I", os.path.join(rb.REPO, "include"), "-I", os.path.join(rb.REPO, "include", "low"),
+           "-I", os.path.join(V, "harness"), "-DORACLE_PROGS", "-D" + rb.GUARD, "-w"]
+    procs, objs = [], []
+    for k, src in enumerate(files + [mainsrc]):
+        cf = os.path.join(d, "p%d.c" % k)
+        open(cf, "w").write(src)
+        obj = os.path.join(d, "p%d.o" % k)
+        objs.append(obj)
+        # -O1: the generated functions are large and setjmp-heavy; the macros are exercised identically
+        procs.append(subprocess.Popen(["gcc", "-O1", "-c", cf, "-o", obj] + inc, stdout=subprocess.PIPE, stderr=subprocess.STDOUT, text=True))
+    errs = [p.communicate()[0] for p in procs if p.wait() != 0]
+    exe = os.path.join(d, "oracle")
+    if not errs:
+        r = subprocess.run(["gcc", "-O1"] + inc + [os.path.join(V, "harness", "oracle.c"), os.path.join(V, "harness", "ops_bn.c")] + objs +
+                           ["-o", exe, os.path.join(b, "lib", "librelic_s.a")], stdout=subprocess.PIPE, stderr=subprocess.STDOUT, text=True)
+        if r.returncode != 0:
+            errs = [r.stdout]
+    if errs:
         from check import BuildError
-        raise BuildError("generated try/catch programs do not compile:\n" + err)
-    os.remove(cfile)
+        raise BuildError("generated try/catch programs do not compile:\n" + errs[0][-3000:])
     lines = ["cfg"] + ["prog %d %s" % (i, enc(p) or "a0;") for i, p in enumerate(progs)]
     ctx._c19_progs = progs
-    ctx._c19_exe = exe
+    ctx._c19_dir = d
     return [{"name": "progs-base", "cfg": "base", "exe": exe, "lines": lines}]
 
 
@@ -184,9 +204,51 @@ def search_streams(ctx, mfail):
     return streams(ctx, scale=4)
 
 
+def dec(txt):
+    """inverse of enc"""
+    pos = 0
+
+    def items():
+        nonlocal pos
+        out = []
+        while pos < len(txt) and txt[pos] not in "|]":
+            c = txt[pos]
+            if c in "at":
+                j = txt.index(";", pos)
+                out.append((c, int(txt[pos + 1:j])))
+                pos = j + 1
+            elif c == "g":
+                out.append(("g",))
+                pos += 2
+            elif c == "[":
+                pos += 1
+                b = items(); pos += 1
+                h = items(); pos += 1
+                f = items(); pos += 1
+                var = txt[pos] == "v"
+                pos += 1
+                out.append(("try", b, h, f, var))
+            else:
+                raise ValueError("bad program text at %d" % pos)
+        return out
+    return items()
+
+
 def replay_streams(ctx, rp):
-    # a replay carries the program text; rebuild exactly that program
-    raise NotImplementedError("replay: re-run the check with the same VERIF_SEED (program index + text are in the replay file)")
+    # a replay carries the program text; rebuild exactly those programs
+    global CORPUS
+    saved = CORPUS
+    CORPUS = [dec(l.split(" ", 2)[2]) for l in rp.get("op_lines", [])]
+    try:
+        class Z:
+            def below(self, n): return 0
+            def chance(self, a, b): return False
+            def choice(self, l): return l[0]
+        real = ctx.rng
+        st = streams(ctx, scale=0)
+    finally:
+        CORPUS = saved
+    return st
 
 
 def nontrivial(r):
@@ -198,10 +260,8 @@ def matches_finding(f, r):
 
 
 def extra_evidence(ctx, recs):
-    try:
-        os.remove(ctx._c19_exe)
-    except Exception:
-        pass
+    import shutil
+    shutil.rmtree(getattr(ctx, "_c19_dir", "/nonexistent"), ignore_errors=True)
     n = len(getattr(ctx, "_c19_progs", []))
     tif = len([r for r in recs if "try-in-finally" in r["verdict"]])
     return {"programs": n, "programs_with_try_in_finally": tif}
